@@ -19,7 +19,10 @@ arrives from a line the scan did not identify is itself reported.
 import os
 import ast
 
+import nfc.clf
 from harness import c18_connect as C
+from env.recdevice import (RecDevice, Trace, SlotEnv, WouldBlock,
+                           make_frontend, open_frontend)
 
 PROPERTY = "C15"
 
@@ -90,7 +93,11 @@ def make_hook(sx, log, bad):
             labels.append("driver-call-from-unscanned-site:" + where)
         else:
             sx.reach(site)
-        if not locked:
+        if not locked and getattr(dev, "lock_owner", None) == "other":
+            # the lock is held, but by somebody else: two threads in the driver
+            labels.append("driver-call-while-lock-held-by-other-thread:%s@%s"
+                          % (method, entry))
+        elif not locked:
             labels.append("driver-call-without-lock:" + where)
         if not current:
             labels.append("driver-call-on-device-not-installed:" + where)
@@ -122,6 +129,89 @@ def run(sx, scn, **params):
 
 def connect_scn(sx, **params):
     return run(sx, "connect_scn", **params)
+
+
+# ----------------------------------------------------------------------------
+# contended: "another thread" is inside a driver call (holds clf.lock)
+# ----------------------------------------------------------------------------
+CONTENDED_OPS = ["sense", "listen", "exchange-cmd", "exchange-rsp",
+                 "max_send_data_size", "max_recv_data_size", "close",
+                 "__exit__", "open", "connect-rdwr", "connect-llcp",
+                 "connect-card"]
+
+
+def contended_scn(sx, op):
+    """The harness takes clf.lock first (GuardLock owner 'other': another
+    application thread that is inside a driver call) and then calls one
+    public entry point.  Correct: the entry point tries to take the lock and
+    would block (GuardLock raises WouldBlock); no driver method is entered
+    while the other owner holds the lock.  A non-blocking acquire that fails
+    does not make the caller an owner."""
+    log, bad = [], []
+    tr = Trace()
+    envo = SlotEnv(sx, tr)
+    dev = RecDevice(sx, envo, tr)
+    dev.hook = make_hook(sx, log, bad)
+    clf = make_frontend(dev)
+    # uncontended preparation: a captured target, so that exchange() and the
+    # size properties have something to talk about
+    if op == "exchange-cmd":
+        dev.entry = "sense"
+        args = [C.mk_target(sx, "A")]
+        envo.program(args, ["ok"], (0, 0), lambda t: C.mk_response(sx, "A"))
+        clf.sense(*args)
+    elif op == "exchange-rsp":
+        dev.entry = "listen"
+        envo.listen_script = "found"
+        envo.response = lambda k: nfc.clf.LocalTarget(
+            "212F", tt3_cmd=sx.mkbytes([0x00, 0xFF, 0xFF, 0x01, 0x00]))
+        clf.listen(C.mk_local(sx, "ttf"), 0.1)
+    dev.entry = op
+    clf.lock.hold_as_other()
+    if op == "sense":
+        st, v = C.call(clf.sense, C.mk_target(sx, "A"), C.mk_target(sx, "F"))
+    elif op == "listen":
+        st, v = C.call(clf.listen, C.mk_local(sx, "ttf"), 0.1)
+    elif op.startswith("exchange"):
+        st, v = C.call(clf.exchange, sx.mkbytes([0x30, 0x00]), 0.1)
+    elif op == "max_send_data_size":
+        st, v = C.call(lambda: clf.max_send_data_size)
+    elif op == "max_recv_data_size":
+        st, v = C.call(lambda: clf.max_recv_data_size)
+    elif op == "close":
+        st, v = C.call(clf.close)
+    elif op == "__exit__":
+        st, v = C.call(clf.__exit__, None, None, None)
+    elif op == "open":
+        tr2 = Trace()
+        dev2 = RecDevice(sx, SlotEnv(sx, tr2), tr2)
+        dev2.hook = dev.hook
+        dev2.entry = "open"
+        st, v = C.call(open_frontend, clf, dev2)
+    elif op == "connect-rdwr":
+        st, v = C.call(clf.connect, rdwr={'targets': ['106A']},
+                       terminate=lambda: False)
+    elif op == "connect-llcp":
+        st, v = C.call(clf.connect, llcp={}, terminate=lambda: False)
+    elif op == "connect-card":
+        st, v = C.call(clf.connect, card={
+            'on-startup': C.startup_cb(sx, tr, "card", "target")},
+            terminate=lambda: False)
+    else:
+        raise ValueError(op)
+    if st == "limit" and isinstance(v, WouldBlock) and clf.lock.blocked == 1:
+        sx.reach("contended:%s:waits" % op)
+        sx.check(True, "waits for the lock")
+    else:
+        bad.append("entry-point-did-not-wait-for-lock:" + op)
+    if clf.lock.owner != "other":
+        bad.append("lock-of-other-thread-released-by:" + op)
+    clf.lock.release_other()
+    if clf.lock.locked():
+        bad.append("lock-left-held-after:" + op)
+    if bad:
+        sx.check(False, bad[sx.pick("report", list(range(len(bad))))])
+    return dict(result=C.describe(st, v), log=log)
 
 
 def sense_scn(sx, **params):
@@ -158,13 +248,34 @@ def partitions(tier):
                               fn="connect_scn", params=p))
     for name, fn, params in C.sense_partitions(tier):
         parts.append(dict(name=name, fn=fn, params=params))
+    # contended: another thread holds the lock
+    for op in CONTENDED_OPS:
+        parts.append(dict(name="contended:" + op, fn="contended_scn",
+                          params=dict(op=op)))
+    g = 8 if tier == "thorough" else 6
+    for name, params in (
+            ("rdwr", dict(modes=["rdwr"], env="t2", targets=["106A"],
+                          beep=[True, False])),
+            ("card", dict(modes=["card"], env="reader",
+                          startup=dict(card=["target"]))),
+            ("llcp-target", dict(modes=["llcp"], env="peer-init",
+                                 role="target")),
+            ("llcp-initiator", dict(modes=["llcp"], env="peer-target",
+                                    role="initiator"))):
+        p = dict(params)
+        p.update(vals={"on-discover": ["True"], "on-connect": C.TF,
+                       "on-release": ["True"]}, K=2, grab=g)
+        parts.append(dict(name="contended:connect-phases:" + name,
+                          fn="connect_scn", params=p))
     return parts
 
 
 MUST_REACH = ["site:%s:%d" % (n, lo) for n, lo, hi in DIRECT] + \
     ["site:%s:indirect" % n for n in INDIRECT] + \
     ["entry:" + s for s in ("connect_scn", "sense_scn", "listen_scn",
-                            "stale_scn", "lifecycle_scn")]
+                            "stale_scn", "lifecycle_scn")] + \
+    ["contended:%s:waits" % op for op in CONTENDED_OPS] + \
+    ["contended:connect:waits-for-lock"]
 
 BOUNDS = {
     "quick": "every driver call on every path of the C18 scenarios (quick "
@@ -175,7 +286,17 @@ BOUNDS = {
              "open(); per driver call: clf.lock.locked() and clf.device is "
              "the called driver (for device.connect(): no driver installed); "
              "per scenario: lock released at the end, never acquired while "
-             "held; per syntactic call site of nfc/clf/__init__.py: reached",
+             "held; per syntactic call site of nfc/clf/__init__.py: reached.  "
+             "CONTENDED family: the harness holds clf.lock as 'another thread' "
+             "(GuardLock owner tag) and calls each of sense, listen, exchange "
+             "(both directions), max_send/recv_data_size, close, __exit__, "
+             "open, connect(rdwr/llcp/card): the entry point must try to take "
+             "the lock (would block) and enter no driver method; and in "
+             "connect() conversations (rdwr/card/llcp both roles) the other "
+             "thread grabs the lock after any one of the first 6 (8) "
+             "callbacks/terminate polls: no driver call until it is released. "
+             "'Held' means held by the caller: a failed acquire(False) does "
+             "not count",
     "thorough": "as quick with the thorough bounds of harness/c18_connect.py",
 }
 OUTSIDE = [
@@ -185,7 +306,7 @@ OUTSIDE = [
     "paths outside the C18 bounds (tag types other than a generic Type 2 Tag, LLCP traffic beyond SYMM/DISC)",
 ]
 ASSUMPTIONS = [
-    "single harness thread: clf.lock.locked() at the entry of a driver method means held by the calling thread",
+    "single harness thread: the lock owner tag of GuardLock ('caller' = taken by the code under test, 'other' = taken by the harness standing for a second thread) decides 'held by the calling thread' at the entry of a driver method",
     "clf.lock is env.recdevice.GuardLock wrapping a threading.Lock (same semantics; raises instead of blocking on self-deadlock)",
     "nfc.clf.device.connect is replaced by a stub that hands out the RecDevice (recorded as driver call 'connect')",
     "scenarios, environment scripts and fault model of harness/c18_connect.py / env/recdevice.py",
